@@ -17,6 +17,12 @@ input_forms: "reject or be right" - y_err / y_cov / y / x handed to the construc
            ACCEPTS must give all scores, gradients, predictions and leave-one-out predictions of the canonical flat-array form
            (forms/<argument>/<form>/accepted-but-<operation>-<part>-differs-from-canonical-form, ../accepted-but-<operation>-raises:<Type>);
            a form refused with ValueError / TypeError is fine and counted as rejected in the tags.
+theta_forms: "reject or be right" for the hyper-parameter VECTOR: every score / gradient / leave-one-out method (and set_hyperparameters followed by
+           predictions) given theta as integer-dtype arrays with integer values, float32, lists, tuples, non-contiguous / read-only views must return
+           what it returns for the equivalent float64 array (theta-forms/<form>/<operation>-<part>-differs-from-float64-array) and leave it unchanged.
+large_n  : n in {100, 300, 600} accurately measured points (errors 1e-6..1e-2 of the signal, 1-D): value path and value-and-gradient path of both
+           scores finite, equal to each other and to a float64 numpy reference within n eps cond bounds (large-n/<score>/<path>/not-finite,
+           large-n/<score>/value-path-differs-from-gradient-path, large-n/<score>/<path>-vs-reference).
 """
 import itertools
 import math
